@@ -827,6 +827,13 @@ func (c *Conn) readLoop() {
 func (c *Conn) dispatch(fr *FrameHeader) bool {
 	r, ok := c.loadReq(fr.Stream())
 	if !ok {
+		// Nobody is waiting for this stream any more (canceled, timed out).
+		// Its DATA still used up connection window, which has to go back or the
+		// window leaks a frame at a time until the server cannot send at all.
+		if fr.Type() == FrameData {
+			c.consumeConnWindow(fr.Len())
+		}
+
 		return false
 	}
 
@@ -834,6 +841,10 @@ func (c *Conn) dispatch(fr *FrameHeader) bool {
 	// nowhere to put this frame. Drop the stream and carry on.
 	if !r.acquireFor(c, fr.Stream()) {
 		c.dequeueReq(fr.Stream())
+
+		if fr.Type() == FrameData {
+			c.consumeConnWindow(fr.Len())
+		}
 
 		return false
 	}
@@ -1453,8 +1464,7 @@ func (c *Conn) readStream(fr *FrameHeader, res *fasthttp.Response) (err error) {
 		err = NewResetStreamError(
 			fr.Body().(*RstStream).Code(), "stream reset by the server")
 	case FrameData:
-		c.currentWindow -= int32(fr.Len())
-		currentWin := c.currentWindow
+		c.consumeConnWindow(fr.Len())
 
 		data := fr.Body().(*Data)
 		if data.Len() != 0 {
@@ -1467,17 +1477,24 @@ func (c *Conn) readStream(fr *FrameHeader, res *fasthttp.Response) (err error) {
 		if fr.Len() > 0 {
 			c.updateWindow(fr.Stream(), fr.Len())
 		}
-
-		if currentWin < c.maxWindow/2 {
-			nValue := c.maxWindow - currentWin
-
-			c.currentWindow = c.maxWindow
-
-			c.updateWindow(0, int(nValue))
-		}
 	}
 
 	return err
+}
+
+// consumeConnWindow accounts for a DATA frame against the connection's receive
+// window and tops the window up once it has dropped below half. It runs for
+// every DATA frame that arrives, whether or not a request is still waiting for
+// it: the server spent its connection window on the frame either way.
+func (c *Conn) consumeConnWindow(n int) {
+	c.currentWindow -= int32(n)
+
+	if c.currentWindow < c.maxWindow/2 {
+		inc := c.maxWindow - c.currentWindow
+		c.currentWindow = c.maxWindow
+
+		c.updateWindow(0, int(inc))
+	}
 }
 
 func (c *Conn) updateWindow(streamID uint32, size int) {
